@@ -110,6 +110,13 @@ def program_strategy():
         out, depth = [], 0
         for _ in range(n):
             k = draw(st.integers(0, 9))
+            if depth < 38 and draw(st.integers(0, 19)) == 0:
+                # the corners the opcode specification names: division by zero and INT_MIN / -1, overflowing MUL / ADD / SUB / NEG
+                a = draw(st.sampled_from([INT_MIN, INT_MIN + 1, 0x7FFFFFFF, -1, 0, 1]))
+                b = draw(st.sampled_from([-1, 0, 1, INT_MIN, 2, -2]))
+                out.append((5, struct.pack('>i', a))); out.append((5, struct.pack('>i', b)))
+                out.append((draw(st.sampled_from([9, 9, 9, 8, 6, 7, 10, 11])), b'')); depth += 1
+                continue
             if depth >= 3 and k == 0:
                 out.append((15, b'')); depth -= 2
             elif depth >= 2 and k <= 4:
